@@ -103,6 +103,12 @@ chk("C17",
     "stateless explicit enumeration of all bounded inputs x 3 contexts x 5 predicates x 2 soft-break modes; reference HTML tokenizer as oracle over the real renderer's output",
     "DESIGN.md section 6, C17")
 
+chk("C11",
+    "Every string up to the stated length over the 5-symbol and the 8-symbol emphasis alphabets (non-ASCII punctuation, space and letter included) that is a one-paragraph document (by the reference recognisers; others skipped and counted) is parsed and rendered by the real code and compared with an executable transcription of spec 6.2 flanking + the appendix's process-emphasis procedure without the openers_bottom optimisation.",
+    "Bounded scope (lengths in the evidence). The reference is self-tested on the spec's emphasis examples that use no other syntax before every run.",
+    "exhaustive enumeration of all bounded delimiter-run strings; reference-model (spec procedure) comparison on the real parser's rendered output",
+    "DESIGN.md section 6, C11")
+
 # Reasons for properties not (yet) claimed.
 PENDING = {}
 
